@@ -25,6 +25,7 @@ type gthread struct {
 	what    string
 	locks   map[interface{}]bool // lockset (monitor)
 	vc      int
+	clk     vclock // vector clock (monitor)
 }
 
 type killThread struct{}
@@ -268,6 +269,7 @@ func (m *machine) quiesce(fr *frame) {
 	for {
 		next := m.pickNext(self)
 		if next == nil {
+			m.hbJoinAll(fr)
 			return
 		}
 		// we stay runnable; the others hand the baton back when they block
@@ -298,11 +300,17 @@ func (m *machine) killAll() {
 // ---------------------------------------------------------------- channels
 
 func chanSend(fr *frame, ch *Chan, v value) {
+	chanSend0(fr, ch, v)
+	fr.m.syncGlobal(fr)
+}
+
+func chanSend0(fr *frame, ch *Chan, v value) {
 	m := fr.m
 	if ch == nil {
 		m.block(fr, func() bool { return false })
 	}
 	m.schedPoint(fr)
+	m.syncGlobal(fr)
 	if ch.closed {
 		m.runtimePanic("send on closed channel")
 	}
@@ -348,6 +356,7 @@ func chanRecv(fr *frame, ch *Chan, commaOk bool, elem types.Type) value {
 		v = zero(elem)
 		ok = false
 	}
+	m.syncGlobal(fr)
 	if commaOk {
 		return tuple{v, ok}
 	}
@@ -362,9 +371,17 @@ func chanClose(fr *frame, ch *Chan) {
 		fr.m.runtimePanic("close of closed channel")
 	}
 	ch.closed = true
+	fr.m.syncGlobal(fr)
 }
 
 func selectOp(fr *frame, instr *ssa.Select) value {
+	fr.m.syncGlobal(fr)
+	r := selectOp0(fr, instr)
+	fr.m.syncGlobal(fr)
+	return r
+}
+
+func selectOp0(fr *frame, instr *ssa.Select) value {
 	m := fr.m
 	m.schedPoint(fr)
 	type st struct {
@@ -464,5 +481,3 @@ func selectOp(fr *frame, instr *ssa.Select) value {
 }
 
 // ---------------------------------------------------------------- race monitor hooks (filled in race.go)
-
-func (m *machine) hbSpawn(parent, child *gthread) {}
